@@ -85,7 +85,7 @@ Theorem effective_config_emitter_refuted :
     map rp_files (reports (run_loop tmp_of bk_of formatter (session_of_cfg scfg) [MkIn true false (LOk c) i])) =
       [[(i, [Write i [98; 10]], OutNothing)]] /\
     map rp_files (reports (run_loop tmp_of bk_of formatter (session_of_cfg c) [MkIn true false LNone i])) =
-      [[(i, [Write (i + 1) [98; 10]; Rename i (i + 2); Rename (i + 1) i], OutNothing)]].
+      [[(i, [Remove (i + 1); Write (i + 1) [98; 10]; Rename i (i + 2); Rename (i + 1) i], OutNothing)]].
 Proof. exact local_emitter_options_ignored_lemma. Qed.
 Print Assumptions effective_config_emitter_refuted.
 
